@@ -1,6 +1,7 @@
 package main
 
 import (
+	"context"
 	"encoding/binary"
 	"encoding/json"
 	"fmt"
@@ -11,6 +12,7 @@ import (
 	"path/filepath"
 	"strings"
 	"syscall"
+	"time"
 
 	"github.com/Vedant9500/WTF/internal/embedding"
 )
@@ -236,12 +238,43 @@ func runC19Child(seed int64, n int, replay string, e *emitter) {
 
 func c19Loader(c *c19Case, kind string, file []byte, dir string, base int64) {
 	p := filepath.Join(dir, fmt.Sprintf("f%d.bin", c.ID))
-	os.WriteFile(p, file, 0o644)
+	pipe := strings.HasSuffix(kind, "pipe")
+	if pipe {
+		// the same bytes delivered through a named pipe (a stream has no size to check the header against)
+		kind = strings.TrimSuffix(kind, "pipe")
+		os.Remove(p)
+		if syscall.Mkfifo(p, 0o644) != nil {
+			c.Kind = "skip"
+			return
+		}
+		done := make(chan struct{})
+		go func() {
+			defer close(done)
+			if w, err := os.OpenFile(p, os.O_WRONLY, 0); err == nil { // blocks until the child opens the pipe
+				w.Write(file)
+				w.Close()
+			}
+		}()
+		defer func() {
+			// a child that never opened the pipe leaves the writer blocked in open: let it through
+			if fd, err := syscall.Open(p, syscall.O_RDONLY|syscall.O_NONBLOCK, 0); err == nil {
+				select {
+				case <-done:
+				case <-time.After(2 * time.Second):
+				}
+				syscall.Close(fd)
+			}
+		}()
+	} else {
+		os.WriteFile(p, file, 0o644)
+	}
 	defer os.Remove(p)
 	outF := filepath.Join(dir, fmt.Sprintf("o%d.json", c.ID))
 	defer os.Remove(outF)
 	self, _ := os.Executable()
-	cmd := exec.Command("prlimit", "--as=3000000000", "--", self, "c19child", "-out", outF)
+	ctx, cancel := context.WithTimeout(context.Background(), 60*time.Second)
+	defer cancel()
+	cmd := exec.CommandContext(ctx, "prlimit", "--as=3000000000", "--", self, "c19child", "-out", outF)
 	cmd.Env = append(os.Environ(), "C19_KIND="+kind, "C19_FILE="+p, "GOGC=100")
 	b, err := cmd.CombinedOutput()
 	if err != nil {
@@ -302,6 +335,12 @@ func c19Stage(r *rand.Rand, c *c19Case, dir string) {
 	for len(cmds) < 3 {
 		cmds = append(cmds, eGenCommand(r))
 	}
+	// every third case: each entry twice (equal lexical scores, document order), the later copy embedded exactly at the query
+	// and the earlier one a thousandth of a radian away: the later one then scores higher by a few 1e-7 and must come first
+	twins := c.ID%3 == 1
+	if twins {
+		cmds = append(cmds, cmds...)
+	}
 	db, err := loadCommands(dir, "s.yml", cmds)
 	if err != nil {
 		c.Kind = "skip"
@@ -330,6 +369,27 @@ func c19Stage(r *rand.Rand, c *c19Case, dir string) {
 		idx.CmdEmbeddings = append(idx.CmdEmbeddings, c19Vec(r, d))
 	}
 	db.VerifSetEmbeddingIndex(idx)
+	if qe := db.EmbedQuery(q); twins && qe != nil && len(idx.CmdEmbeddings) == len(db.Commands) {
+		a, b := 0, 1
+		for k := range qe { // the two coordinates of largest magnitude
+			if math.Abs(float64(qe[k])) > math.Abs(float64(qe[a])) {
+				a, b = k, a
+			} else if k != a && math.Abs(float64(qe[k])) > math.Abs(float64(qe[b])) {
+				b = k
+			}
+		}
+		if a == b {
+			b = (a + 1) % d
+		}
+		m := len(db.Commands) / 2
+		for i := 0; i < m; i++ {
+			p := append([]float32(nil), qe...)
+			p[a] += 1e-3 * qe[b]
+			p[b] -= 1e-3 * qe[a]
+			idx.CmdEmbeddings[i] = p
+			idx.CmdEmbeddings[m+i] = append([]float32(nil), qe...)
+		}
+	}
 	if r.Intn(3) == 0 {
 		// the embeddings are regenerated while the index is in use: same number of commands, other vectors (not
 		// normalised, ten times longer); whatever the index remembers from the first search must not leak into the second
@@ -365,11 +425,11 @@ func runC19(seed int64, n int, replay string, e *emitter) {
 	one := func(r *rand.Rand, id int, kind string, file []int) c19Case {
 		c := c19Case{ID: id, Kind: kind, Seed: seed}
 		switch kind {
-		case "wv", "ce":
+		case "wv", "ce", "wvpipe", "cepipe":
 			var f []byte
 			if file != nil {
 				f = []byte(fromInts(file))
-			} else if kind == "wv" {
+			} else if strings.HasPrefix(kind, "wv") {
 				f = c19WVFile(r)
 			} else {
 				f = c19CEFile(r)
@@ -406,6 +466,17 @@ func runC19(seed int64, n int, replay string, e *emitter) {
 		r := rand.New(rand.NewSource(seed*1000003 + int64(i)))
 		kind := []string{"wv", "ce", "cos", "cos", "stage", "stage"}[i%6]
 		e.emit(one(r, i, kind, nil))
+	}
+	// the same kinds of file content arriving through a named pipe
+	for i, f := range fixed {
+		r := rand.New(rand.NewSource(seed))
+		e.emit(one(r, 300000+i, "wvpipe", ints(string(f))))
+		g := append(append([]byte(nil), f...), 100, 0, 0, 0)
+		e.emit(one(r, 400000+i, "cepipe", ints(string(g))))
+	}
+	for i := 0; i < n/8; i++ {
+		r := rand.New(rand.NewSource(seed*1000003 + int64(500000+i)))
+		e.emit(one(r, 500000+i, []string{"wvpipe", "cepipe"}[i%2], nil))
 	}
 }
 
